@@ -103,9 +103,26 @@ def sync_abort_handoff_case(rng):
     return "str_run " + " ".join(fmt_arg(x) for x in [[rng.choice([256, 8192])], [3], w1 + w2] + ops), ["abort", "stream", "own", "sync-handoff", "follow1"]
 
 
+def params_abort_pipelined_case(rng):
+    """request A (id 1) is aborted during Params and the client sends the whole next request B (id 2) right behind the abort, in the same
+    segment (hence possibly in the same transport read and the same parse call): A still gets its one EndRequest(RequestComplete, 0),
+    no handler runs for A, B is served"""
+    B = rng.choice([256, 8192])
+    pairs = rand_pairs(rng, 2, 20)
+    preA = [begin(1, 1, 1)] + stream_records(PARAMS, 1, nv_all(pairs), cut_list(rng, len(nv_all(pairs)), "few"), rng)
+    ab = record(ABORT, 1, [rng.randrange(256) for _ in range(rng.choice([0, 8]))], rng.choice([0, 5]))
+    w2 = flat(minimal_preamble(2, 1, flags=0, pairs=[(b"K", b"v")])) + record(STDIN, 2, [1, 2, 3], 0) + record(STDIN, 2, [], 0)
+    segs = [(0, 0, flat(preA[:rng.randrange(1, len(preA))]) + ab + w2)]      # never the terminating empty Params record
+    rs = rng.choice([[], [10 ** 6] * 10, C07.io_script(rng, 60, "r")])
+    ws = rng.choice([[], C07.io_script(rng, 40, "w")])
+    return conn_case(B, 1, segs, [[("readall",), ("ret", 0, 7)]], rs, ws, rng.choice([0, 1])), ["abort", "params", "own", "none", "follow1", "params-pipelined"]
+
+
 def gen_cases(rng, tier):
     for _ in range(1200 if tier == "quick" else 60000):
         yield one(rng)
+    for _ in range(30 if tier == "quick" else 1500):
+        yield params_abort_pipelined_case(rng)
     for _ in range(12 if tier == "quick" else 400):
         yield sync_abort_handoff_case(rng)
     for (P, pad) in ((65535, 255), (65281, 255), (65535, 1)):
@@ -118,7 +135,7 @@ def nontrivial(line, tags):
 
 
 def min_classes(tier):
-    return {"params": 150, "stream": 300, "foreign": 150, "follow1": 150, "follow2": 150, "past-eof": 100, "own-status": 100, "propagate": 150, "huge-abort": 6, "sync-handoff": 10}
+    return {"params": 150, "stream": 300, "foreign": 150, "follow1": 150, "follow2": 150, "past-eof": 100, "own-status": 100, "propagate": 150, "huge-abort": 6, "sync-handoff": 10, "params-pipelined": 30}
 
 
 def oracle(line, impl_line):
@@ -149,6 +166,22 @@ def oracle(line, impl_line):
     if head[0] == 1:
         return "deadlock after a client abort"
     rr, _ = parse_records(segs[0][2])
+    if len(segs) == 1 and len(set(r[1] for r in rr if r[0] == BEGIN)) == 2:
+        # class params-pipelined: A = id 1 aborted during Params, B = id 2 complete behind it in the same segment
+        recs, tail = parse_records(wlog)
+        if tail != "clean":
+            return "transport log is not a sequence of complete records"
+        endA = [r for r in recs if r[0] == END and r[1] == 1]
+        endB = [r for r in recs if r[0] == END and r[1] == 2]
+        if len(endA) != 1 or endA[0][2][:5] != [0, 0, 0, 0, 0]:
+            return "the request aborted during Params was answered by %d EndRequest records, expected exactly one EndRequest(RequestComplete, 0)" % len(endA)
+        if len(inv) != 1:
+            return "%d handler invocations, expected one (for the request behind the aborted one)" % len(inv)
+        if len(endB) != 1:
+            return "the request behind the aborted one was not served (%d EndRequest records for it)" % len(endB)
+        if recs.index(endA[0]) > recs.index(endB[0]):
+            return "the EndRequest for the aborted request was written after the next request's"
+        return True
     b = [r for r in rr if r[0] == BEGIN][0]
     rid, role = b[1], b[2][0] * 256 + b[2][1]
     keep = b[2][2] & 1
